@@ -278,4 +278,40 @@ class Unpeer(Contract):
     }
 
 
-CONTRACTS += [RemoveChildInterface, Unpeer]
+class RemoveServiceInterface(Contract):
+    """substrate topology: a switch's service has the ports p1 and p2; remove_interface(p1) deletes exactly that port (and its
+    links), and the handle through which it was removed lists the same interfaces as a freshly looked-up one"""
+    target = 'fim.user.network_service:NetworkService.remove_interface'
+    props = ('C08',)
+    bounded = topo.BOUND
+    summaries = topo.SUMMARIES
+    max_paths = 2000
+    cost = 20
+
+    def inputs(self, g):
+        return [g.atom('site1'), g.pick(['p1', 'p2'], 'which port is removed')], {}
+
+    def body(self, h, site1, which):
+        from fim.user.topology import Topology
+        from fim.user import NodeType, InterfaceType
+        topo.fresh_world(h)
+        t = h.call(Topology)
+        n = h.call(h.getattr(t, 'add_node'), name='sw', site=site1, ntype=NodeType.Switch)
+        ns = h.call(h.getattr(n, 'add_network_service'), name='sw-ns', nstype=ServiceType.MPLS)
+        h.call(h.getattr(ns, 'add_interface'), name='p1', itype=InterfaceType.TrunkPort)
+        h.call(h.getattr(ns, 'add_interface'), name='p2', itype=InterfaceType.TrunkPort)
+        S0 = take(h, t)
+        h.call(h.getattr(ns, 'remove_interface'), name=which)
+        S1 = take(h, t)
+        node = h.call(h.getattr(h.getattr(t, 'nodes'), '__getitem__'), 'sw')
+        fresh = h.call(h.getattr(h.getattr(node, 'network_services'), '__getitem__'), 'sw-ns')
+        return (S0, S1, iface_names(h, ns) == iface_names(h, fresh), which)
+
+    ensures = {
+        'delete.exactly_the_port': lambda pre, post: returned(post) and exactly_deleted(
+            post.result[0], post.result[1], set(find(post.result[0], 'ConnectionPoint', post.result[3]))),
+        'handles.report_fresh_interfaces': lambda pre, post: returned(post) and post.result[2] is True,
+    }
+
+
+CONTRACTS += [RemoveChildInterface, Unpeer, RemoveServiceInterface]
